@@ -379,6 +379,7 @@ func runC12(ctx Ctx) int {
 	run.Sample(items[len(items)/2].p)
 	run.Sample(items[len(items)-1].p)
 	finishCapped(run, complete, fmt.Sprintf("%d executions: k<=%d over %d dims + full product of %d requested lists x %d user records", len(items), k, len(c12Space.Dims), len(c12Space.Dims[ai].Vals), len(c12Space.Dims[ui].Vals)))
+	runLongRuns(run, "C12")
 	return run.Finish()
 }
 
